@@ -27,6 +27,7 @@ Definition enc_event (ev : event) : val :=
   | EvReq q => VL [VI 0; VB (q_method q); VB (q_url q); VB (q_proto q); enc_hdr (q_hdr q); VB (q_body q)]
   | EvResp p => VL [VI 1; VB (p_proto p); VI (p_code p); VB (p_status p); enc_hdr (p_hdr p); VB (p_body p)]
   | EvPack c d => VL [VI 2; VI c; VB d]
+  | EvSkip => VL [VI 3]
   end.
 Definition dec_event (v : val) : event :=
   match as_int (nthv 0 v) with
@@ -34,7 +35,8 @@ Definition dec_event (v : val) : event :=
                   q_hdr := dec_hdr (nthv 4 v); q_body := as_bytes (nthv 5 v) |}
   | 1 => EvResp {| p_proto := as_bytes (nthv 1 v); p_code := as_int (nthv 2 v); p_status := as_bytes (nthv 3 v);
                    p_hdr := dec_hdr (nthv 4 v); p_body := as_bytes (nthv 5 v) |}
-  | _ => EvPack (as_int (nthv 1 v)) (as_bytes (nthv 2 v))
+  | 2 => EvPack (as_int (nthv 1 v)) (as_bytes (nthv 2 v))
+  | _ => EvSkip
   end.
 
 Definition enc_final (f : ofinal) : val :=
